@@ -10,17 +10,22 @@ def scenario(rng):
             "post b ok 21 " + hx("NICK bob"), "post b ok 22 " + hx("USER u 0 * :real"), "post a ok 13 " + hx("JOIN #c"), "post b ok 23 " + hx("JOIN #c")]
     checks = []    # (index of retry op, expected newentries 0)
     cm = {"a": 13, "b": 23}
+    last = {"a": "JOIN #c", "b": "JOIN #c"}
     for _ in range(rng.randrange(6, 14)):
         who = rng.choice("ab")
         r = rng.random()
         if r < 0.45:
             cm[who] += 1
-            text = rng.choice(["PRIVMSG #c :hello %d" % cm[who], "TOPIC #c :t%d" % cm[who], "PING x", "MODE #c +t", "AWAY :brb"])
+            # also lines the IRC layer cannot parse or does not know: they are log entries like any other
+            text = rng.choice(["PRIVMSG #c :hello %d" % cm[who], "TOPIC #c :t%d" % cm[who], "PING x", "MODE #c +t", "AWAY :brb",
+                               "", " ", ":alice", ":", "\r\nPRIVMSG #c :cut away", "FOO bar", "privmsg  #c :two spaces %d" % cm[who]])
+            last[who] = text
             ops.append("post %s ok %d %s" % (who, cm[who], hx(text)))
         elif r < 0.85:
             # retry the last message of that session, any number of times, possibly with other traffic in between
             for _ in range(rng.choice([1, 2, 3])):
-                ops.append("post %s ok %d %s" % (who, cm[who], hx("PRIVMSG #c :retried")))
+                # a real retry repeats the text; the id alone must decide
+                ops.append("post %s ok %d %s" % (who, cm[who], hx(rng.choice([last[who], "PRIVMSG #c :retried"]))))
                 checks.append(len(ops) - 1)
         elif r < 0.92:
             ops.append(rng.choice(["snapshot", "snapshot 7200"]))
@@ -50,7 +55,7 @@ def check(run):
     if not ok:
         run.violation("broken:harness-build", "the Go harness no longer builds against /repo", {"log": out[-2000:]}, False)
         return run.finish()
-    nscen = 3 if run.tier == "quick" else 60
+    nscen = 6 if run.tier == "quick" else 80
     bad, evals, nretries, samples = None, 0, 0, []
     for _ in range(nscen):
         ops, checks, closed, cm = scenario(run.rng)
